@@ -166,11 +166,14 @@ type Client struct {
 	// for all active subscriptions.
 	pendingAcks []*ua.SubscriptionAcknowledgement
 
-	// pausech pauses the subscription publish loop
-	pausech chan struct{}
-
-	// resumech resumes subscription publish loop
-	resumech chan struct{}
+	// pubMu guards the state of the subscription publish loop: the loop
+	// publishes while pubPaused is false. pubGen counts the resume requests
+	// so that the loop does not pause itself because of a publish error
+	// that predates a resume. pubWake wakes a paused loop.
+	pubMu     sync.Mutex
+	pubPaused bool
+	pubGen    uint64
+	pubWake   chan struct{}
 
 	// mcancel stops subscription publish loop
 	mcancel func()
@@ -216,8 +219,7 @@ func NewClient(endpoint string, opts ...Option) (*Client, error) {
 		sechanErr:   make(chan error, 1),
 		subs:        make(map[uint32]*Subscription),
 		pendingAcks: make([]*ua.SubscriptionAcknowledgement, 0),
-		pausech:     make(chan struct{}, 2),
-		resumech:    make(chan struct{}, 2),
+		pubWake:     make(chan struct{}, 1),
 		stateCh:     cfg.stateCh,
 		stateFunc:   cfg.stateFunc,
 	}
